@@ -1,0 +1,16 @@
+//go:build verif
+
+package tracker
+
+// VerifNewRaw builds a tracker of the given kind ("http" or "udp") without the URL
+// validation done by New, so that the url-parse-failure path of (*UDP).Announce and of
+// announceHTTP can be driven (C15).
+func VerifNewRaw(kind string, url string) Tracker {
+	switch kind {
+	case "http":
+		return &HTTP{base: base{url: url}}
+	case "udp":
+		return &UDP{base: base{url: url}}
+	}
+	return nil
+}
